@@ -242,6 +242,7 @@ def U_D_games():
         "0.5n11": [(0.5 + 2 ** -11, "W"), (0.5 - 2 ** -11, "L")],      # 0.5 + 4.9e-4: distinct from 1/2 by more than the tolerance
         "0.5n14": [(0.5 + 2 ** -14, "W"), (0.5 - 2 ** -14, "L")],      # 0.5 + 6.1e-5
         "0.5n17": [(0.5 + 2 ** -17, "W"), (0.5 - 2 ** -17, "L")],      # 0.5 + 7.6e-6
+        "0.5n45": [(0.5000045, "W"), (0.4999955, "L")],                # 0.5 + 4.5e-6: just outside tolerance + 1e-6, same 5-digit rounding as 1/2
         "0a": [(1, "L")],
         "1a": [(1, "W")],
         "1b": [(0.3, "W"), (0.7, "W")],
